@@ -463,6 +463,35 @@ func run(c *vf.Ctx) {
 		prep = append(prep, pr)
 	}
 
+	// ---- phase 1b: the command line as it arrives on the wire (go-git's SSH transport against an in-process SSH server)
+	// must be the string the verif export returns, so that everything decided about that string holds for the wire.
+	if ws, err := newWireServer(); err != nil {
+		c.Inconclusive("cannot start the in-process SSH server: %v", err)
+	} else {
+		nWire := c.N(60, 300)
+		step := len(prep) / nWire
+		if step < 1 {
+			step = 1
+		}
+		for i := 0; i < len(prep); i += step {
+			pr := prep[i]
+			if len(pr.cmdline) > 30000 {
+				continue
+			}
+			got, err := wireCommand(ws, pr.t)
+			if err != nil {
+				c.Count("wire_errors", 1)
+				c.Inconclusive("wire observation failed: %v", err)
+				break
+			}
+			c.Count("wire_observations", 1)
+			if got != pr.cmdline {
+				c.Fail("wire:command-differs-from-buildCommand", fmt.Sprintf("the SSH server received %s but buildCommand (verif export) returns %s", strconv.Quote(trunc(got)), strconv.Quote(trunc(pr.cmdline))), pr.t.replay())
+			}
+		}
+		ws.ln.Close()
+	}
+
 	// ---- phase 2: real shells
 	var failures atomic.Int64
 	var featMu sync.Mutex
@@ -617,7 +646,7 @@ func run(c *vf.Ctx) {
 	// 2b: deterministic sample of model-agreeing cases through the real shells.
 	// Selection: all fixed/single-byte/pair/long cases + a stride over the rest.
 	// (Process creation is the cost driver on a loaded machine - ~100 ms each was measured - so the counts are modest.)
-	stride, strideSpecial := c.N(10, 6), c.N(2, 1)
+	stride, strideSpecial := c.N(16, 20), c.N(3, 2)
 	var sel []prepared
 	for _, pr := range prep {
 		switch pr.t.Origin {
@@ -734,9 +763,10 @@ func run(c *vf.Ctx) {
 	}
 	c.Extra("processes_spawned", spawns.Load())
 	c.Floor("cases (go-git + both models)", len(prep), c.N(5000, 100000))
-	c.Floor("real shell evaluations", c.Counter("shell_evaluations"), c.N(800, 15000))
-	c.Floor("one-process-per-case sh -c evaluations", c.Counter("shell_evaluations_individual"), c.N(150, 2500))
-	c.Floor("git-shell runs", c.Counter("git_shell_runs"), c.N(50, 800))
+	c.Floor("real shell evaluations", c.Counter("shell_evaluations"), c.N(500, 4500))
+	c.Floor("one-process-per-case sh -c evaluations", c.Counter("shell_evaluations_individual"), c.N(90, 700))
+	c.Floor("git-shell runs", c.Counter("git_shell_runs"), c.N(30, 250))
+	c.Floor("command lines observed on the wire", c.Counter("wire_observations"), c.N(50, 250))
 	c.Floor("distinct word shapes", c.SeenCount("word_shapes"), 100)
 	c.Floor("shell flavours", c.SeenCount("shells"), 3)
 	c.Assume("req.Command is one of git's three service names (it is written unquoted by design); words containing NUL are outside the domain (cannot occur in argv)")
